@@ -133,7 +133,7 @@ def streams(ctx):
             if not close:
                 s = v + s
         out.append((label, s))
-    for i in range(ctx.pick(80, 1200)):
+    for i in range(ctx.pick(80, 600)):
         n = rng.randint(1, 3)
         s = b""
         for _ in range(n):
